@@ -23,7 +23,23 @@ def post(prop, tier, seed, res):
         out = os.path.join(vlib.BUILD, "%s.%s.cases" % (prop, name))
         rc, o = vlib.sh([os.path.join(vlib.BUILD, binary), "replay", cases], env=vlib.GOENV, timeout=3000, check=False)
         if rc != 0:
-            raise SystemExit("BROKEN: harness built with -tags '%s' failed: %s" % (tags, o[-2000:]))
+            # the tagged build died on a case: that case is the replay; the lines before it are compared
+            done = [l for l in o.split("\n")[:-1] if " => " in l]
+            if len(done) >= len(default_lines):
+                raise SystemExit("BROKEN: harness built with -tags '%s' failed: %s" % (tags, o[-2000:]))
+            died = default_lines[len(done)].split(" => ")[0]
+            rp = os.path.join(vlib.VERIF, "evidence", "replays", "%s-%s-harness-died.replay" % (prop, name))
+            os.makedirs(os.path.dirname(rp), exist_ok=True)
+            with open(rp, "w") as f:
+                f.write("# replay for property %s: the harness built with -tags '%s' ended abnormally (exit %d) while running the case below;\n" % (prop, tags, rc))
+                f.write("# the default build completes it.  Last output:\n")
+                for l in o[-1500:].splitlines()[-10:]:
+                    if " => " not in l:
+                        f.write("#   %s\n" % l[:300])
+                f.write("# re-run: VERIF_TAGS='%s' ./check %s --replay %s\n" % (tags, prop, os.path.relpath(rp, vlib.VERIF)))
+                f.write(died + "\n")
+            viol.append("VIOLATION property=%s replay=%s" % (prop, os.path.relpath(rp, vlib.VERIF)))
+            o = "\n".join(done) + "\n"
         open(out, "w").write(o)
         model = vlib.run_driver(out)
         r = vlib.classify(prop, out, model)
